@@ -15,6 +15,7 @@ func init() {
 	register("C01", "R3", 11, "hop-by-hop table: the nine names of the specification (canonical spelling) are in the table, Connection-nominated names are deleted first (read from every Connection line, split on commas, canonicalised) and the fixed list afterwards", c01r3)
 	register("C01", "R4", 10, "conditional re-adds and fills: Connection/Upgrade are re-added only for an upgrade request with the value read before the modifiers ran; each X-Forwarded-{Proto,Host,Url} is filled only when that very field is absent, from the scheme, Host and URL; X-Forwarded-For gets the client address appended; User-Agent is set only when absent and to the empty string", c01r4)
 	register("C01", "R5", 2, "append-not-replace for list fields: Via and X-Forwarded-For are rebuilt from every existing field line", c18r2)
+	register("C01", "R7", 2, "message boundary on keep-alive connections: once a request was read, its body is closed (net/http then discards what was not consumed) on every exit of the exchange - also when the request is refused before it is forwarded - so the next request on the connection is parsed from a message boundary", bodyClosedOnEveryExit)
 	register("C01", "R6", 2, "scheme fix-up: an empty scheme is filled from X-Forwarded-Proto, else https iff the session is TLS, else http; http is upgraded to https only inside a TLS session and when AllowHTTP is off; forwarder switches AllowHTTP on", c01r6)
 }
 
@@ -448,4 +449,53 @@ func c01r6(r *R) {
 		r.bad("forwarder#AllowHTTP", fs.Pos(), "forwarder no longer enables AllowHTTP: http requests inside a MITM'd session would be forced to https")
 	}
 	_ = types.Typ
+}
+
+func bodyClosedOnEveryExit(r *R) {
+	h := r.method(mpkg, "proxyConn", "handle")
+	ps, complete := enumPaths(h, 20000, 1)
+	if !complete {
+		r.undecided("proxyConn.handle#body-close", h.Pos(), "too many paths")
+		return
+	}
+	const readOK = "!((*martian.proxyConn).readRequest($0)#1 != nil)"
+	bad := map[string]bool{}
+	n := 0
+	for _, p := range ps {
+		if !p.holds(readOK) {
+			continue
+		}
+		n++
+		closed := false
+		for _, e := range p.Events {
+			d := strings.TrimPrefix(e.Desc, "deferred ")
+			if (e.Kind == "call" || e.Kind == "defer") && d == "invoke io.ReadCloser.Close((*martian.proxyConn).readRequest($0)#0.Body)" {
+				closed = true
+			}
+		}
+		if !closed {
+			via := "returns directly"
+			for _, e := range p.Events {
+				if e.Kind == "call" && (strings.HasPrefix(e.Desc, "(*martian.proxyConn).write") || strings.HasPrefix(e.Desc, "(*martian.proxyConn).handle")) {
+					via = "exits through " + e.Desc[:strings.Index(e.Desc, "(")+0]
+					via = "exits through " + strings.SplitN(strings.TrimPrefix(e.Desc, "(*martian.proxyConn)."), "(", 2)[0]
+				}
+			}
+			bad[via] = true
+		}
+	}
+	var why []string
+	for k := range bad {
+		why = append(why, k)
+	}
+	r.check(n > 5 && len(why) == 0, "proxyConn.handle#body-closed-on-every-exit", h.Pos(), fmt.Sprintf("all %d exits after a successful read close the request body", n), "the request body is left unread on the connection on some exits ("+strings.Join(why, "; ")+"): its bytes are parsed as the next request")
+	// handler mode: ServeHTTP defers the close of the outgoing body
+	sh := r.method(mpkg, "proxyHandler", "ServeHTTP")
+	okH := false
+	eachInstr(sh, func(ins ssa.Instruction) {
+		if d, ok := ins.(*ssa.Defer); ok && strings.HasPrefix(describeCall(d.Common(), describe), "invoke io.ReadCloser.Close(") {
+			okH = true
+		}
+	})
+	r.check(okH, "proxyHandler.ServeHTTP#body-closed", sh.Pos(), "handler mode closes the outgoing request body", "handler mode no longer closes the request body")
 }
